@@ -253,3 +253,10 @@ Proof.
   exists solar_init, (SET_CAL ++ [SEMI] ++ [102; 111; 111; 32; 98; 97; 114; 13]), (mkS CALIBRATOR 1).
   split; [vm_compute; reflexivity | vm_compute; discriminate].
 Qed.
+
+Lemma solar_answered_after_history bs q : In q solar_queries ->
+  let s := fst (solar_run solar_start (bs ++ [LF])) in
+  snd (solar_run s (q ++ [LF])) = line_outs q (OReply (mode (ldev s) ++ CRLF)).
+Proof.
+  intros Hq s. rewrite (solar_answered s q (lresync solar_exec solar_start bs) Hq). reflexivity.
+Qed.
